@@ -456,18 +456,10 @@ def isQuantised : Domain → Bool
   | .int d => d.q.isSome
   | _ => false
 
-/-- `sample(size = n)` for `n > 1`: a list; through `Quantized` the elements are the raw
-`np.float64` products (no `cast`), i.e. floats even for an integer domain -/
+/-- `sample(size = n)` for `n > 1`: a list, every element cast to the domain type (also through
+`Quantized`: `[domain.cast(x) for x in quantized]`) -/
 def Domain.sampleList (env : Env) (c : Consts) (d : Domain) (drs : List Draw) : Except Err (List Val) :=
-  match d with
-  | .int di =>
-    match di.q with
-    | some q =>
-      drs.mapM (fun dr => match di.sampleRaw env dr with
-        | .ok k => .ok (Val.flt ((quantizeI q k : Int) : Rat))
-        | .error e => .error e)
-    | none => drs.mapM (d.sample env c)
-  | _ => drs.mapM (d.sample env c)
+  drs.mapM (d.sample env c)
 
 def Domain.sampleN (env : Env) (c : Consts) (d : Domain) (drs : List Draw) : Except Err (List Val) :=
   match drs with
@@ -491,12 +483,11 @@ structure JDom where
   sampler : Option String
 deriving Repr, Inhabited
 
-/-- `str(sampler)`: `Uniform.__str__` / `LogUniform.__str__`; `_ReverseLogUniform` inherits
-`LogUniform.__str__` -/
+/-- `str(sampler)`: `Uniform.__str__` / `LogUniform.__str__` / `_ReverseLogUniform.__str__` -/
 def samplerStr : ScaleKind → String
   | .lin => "Uniform"
   | .log => "LogUniform"
-  | .rlog => "LogUniform"
+  | .rlog => "ReverseLogUniform"
 
 /-- `to_dict` followed by `json.dumps`: the `sampler_kwargs` of a `Quantized` sampler hold the
 wrapped sampler object, which `json` rejects with `TypeError` -/
@@ -513,7 +504,8 @@ def toDict : Domain → Except Err JDom
 
 /-- `getattr(domain_cls, "_" + sampler_cls)` -/
 def samplerOf (s : String) : Except Err ScaleKind :=
-  if s = "Uniform" then .ok .lin else if s = "LogUniform" then .ok .log else .error .attributeError
+  if s = "Uniform" then .ok .lin else if s = "LogUniform" then .ok .log
+  else if s = "ReverseLogUniform" then .ok .rlog else .error .attributeError
 
 /-- `from_dict`: the constructor of the class (with its assertions), then `set_sampler` -/
 def fromDict (j : JDom) : Except Err Domain :=
@@ -533,6 +525,7 @@ def fromDict (j : JDom) : Except Err Domain :=
       if lo ≤ hi then
         match j.sampler with
         | some s => match samplerOf s with
+          | .ok .rlog => .error .attributeError      -- `Integer` has no `_ReverseLogUniform`
           | .ok k => .ok (.int ⟨lo, hi, k, none⟩)
           | .error e => .error e
         | none => .ok (.int ⟨lo, hi, .lin, none⟩)
